@@ -1179,14 +1179,17 @@ div_signed_int(Type& to, const Type x, const Type y, Rounding_Dir dir) {
     return V_EQ;
   }
   Type m = x % y;
-  if (m < 0) {
+  if (m == 0) {
+    return V_EQ;
+  }
+  // The truncated quotient `to' differs from the exact one by `m/y':
+  // the exact quotient is less than `to' if and only if the signs
+  // of the remainder and of the divisor are different.
+  if ((m < 0) != (y < 0)) {
     return round_lt_int_no_overflow<To_Policy>(to, dir);
   }
-  else if (m > 0) {
-    return round_gt_int_no_overflow<To_Policy>(to, dir);
-  }
   else {
-    return V_EQ;
+    return round_gt_int_no_overflow<To_Policy>(to, dir);
   }
 }
 
